@@ -30,7 +30,7 @@ TOTAL = {
     "<impl [T]>::get": "returns Option", "<impl [T]>::contains": "pure", "<impl [T]>::iter().rev": "pure",
     "Vec::<T>::new": "pure", "Vec::<T, A>::push": "alloc only", "Vec::<T, A>::is_empty": "pure", "Vec::<T, A>::extend_from_slice": "alloc only",
     "Vec::<T, A>::append": "alloc only", "Vec::<T, A>::pop": "pure", "Vec::<T, A>::clear": "pure", "Vec::<T, A>::as_slice": "pure",
-    "Vec::<T, A>::retain": "pure (closure analysed)", "Vec::<T, A>::iter": "pure", "Vec::<T, A>::sort": "total order of derived Ord", "Vec::<T, A>::extend": "alloc only",
+    "Vec::<T, A>::retain": "pure (closure analysed)", "Vec::<T, A>::iter": "pure", "Vec::<T, A>::sort": "total order of derived Ord", "Vec::<T, A>::extend": "alloc only", "Extend::extend": "alloc only (the consumed iterator's adapters are listed separately; closures are analysed)",
     "<impl [T]>::sort_unstable_by_key": "panics only if the key's Ord is not total; keys are integers / derived Ord",
     "<impl [T]>::sort_by_key": "same as sort_unstable_by_key", "<impl [T]>::sort_unstable": "derived Ord", "<impl [T]>::sort": "derived Ord",
     "ToString::to_string": "alloc + Display of str/integers", "Clone::clone": "derived/std clone", "ToOwned::to_owned": "alloc only",
